@@ -330,7 +330,13 @@ pub(crate) fn encode_internal<W: Write, S: Borrow<Schema> + Debug>(
             let record_namespace = name.namespace().or(enclosing_namespace);
             let mut written_bytes = 0;
             for schema_field in schema_fields.iter() {
-                let value = match items.get(&schema_field.name) {
+                let entry = items.get(&schema_field.name).or_else(|| {
+                    schema_field
+                        .aliases
+                        .iter()
+                        .find_map(|alias| items.get(alias))
+                });
+                let value = match entry {
                     Some(value) => value,
                     None if schema_field.is_nullable() => &Value::Null,
                     None => {
